@@ -397,6 +397,22 @@ def accesses(proj: Project, gv: GlobalVar) -> List[Access]:
         out.extend(accs)
         for a in accs:
             out.extend(_alias_accesses(gv, m, a))
+        # whole-container alias: `local = G` (single definition of `local`): every later use of `local` in that function
+        # and in the closures nested in it is a use of G
+        st = parent(ref)
+        fn = enclosing_func(ref)
+        if fn is not None and isinstance(st, (ast.Assign, ast.AnnAssign)) and getattr(st, "value", None) is ref:
+            tg = [t for t, _ in assign_targets(st) if isinstance(t, ast.Name)]
+            if len(tg) == 1 and len(assignments(fn, tg[0].id)) == 1:
+                alias = tg[0].id
+                for n in ast.walk(fn):
+                    if isinstance(n, ast.Name) and n.id == alias and isinstance(n.ctx, ast.Load) and n is not ref:
+                        inner = enclosing_func(n)
+                        if inner is not fn and inner is not None and (alias in params(inner) or assignments(inner, alias)):
+                            continue  # shadowed in the nested function
+                        for a in classify_ref(gv, m, n):
+                            a.how = f"alias {alias}: {a.how}"
+                            out.append(a)
     return out
 
 
